@@ -17,8 +17,12 @@ import traceback
 
 ROOT = os.path.dirname(os.path.dirname(os.path.abspath(__file__)))
 REPO = os.environ.get('VERIF_REPO', '/repo')
-EVIDENCE_DIR = os.path.join(ROOT, 'evidence')
-REPLAY_DIR = os.path.join(ROOT, 'replays')
+# runs against a scratch copy of the repository (self-validation with deliberate breaks) must never
+# overwrite the evidence of /repo itself
+_SCRATCH = os.path.realpath(REPO) != '/repo'
+EVIDENCE_DIR = os.environ.get('VERIF_EVIDENCE_DIR') or (
+    os.path.join(tempfile.gettempdir(), 'vf-scratch-evidence') if _SCRATCH else os.path.join(ROOT, 'evidence'))
+REPLAY_DIR = os.path.join(tempfile.gettempdir(), 'vf-scratch-replays') if _SCRATCH else os.path.join(ROOT, 'replays')
 KNOWN_FINDINGS = os.path.join(ROOT, 'known_findings.json')
 
 # numeric comparison classes (DESIGN §1 "Numerics"); constants, never tuned per case
